@@ -48,6 +48,8 @@ pub struct ServerAeadCodec {
     keys: Vec<[u8; 16]>,
     decode_state: DecodeState,
     encode_state: EncodeState,
+    /// whether the item that carries the target (the first one) has been yielded
+    connected: bool,
 }
 
 impl ServerAeadCodec {
@@ -198,6 +200,7 @@ impl Decoder for ServerAeadCodec {
                         debug!("New session; {}", session);
                         let mut decoder = AEADBodyCodec::new_decoder(&header, &mut session)?;
                         let res = Self::decode_header(src, &mut header, &mut session, &mut decoder);
+                        self.connected = matches!(res, Ok(Some(_)));
                         self.decode_state = DecodeState::Ready(header, session, Box::new(decoder));
                         res
                     } else {
@@ -210,6 +213,11 @@ impl Decoder for ServerAeadCodec {
             DecodeState::Ready(ref mut header, ref mut session, ref mut decoder) => {
                 if src.is_empty() {
                     Ok(None)
+                } else if !self.connected {
+                    // the first chunk had not arrived together with the header: the first item still has to name the target
+                    let res = Self::decode_header(src, header, session, decoder);
+                    self.connected = matches!(res, Ok(Some(_)));
+                    res
                 } else {
                     Self::decode_body(src, header, session, decoder)
                 }
@@ -224,6 +232,6 @@ impl TryFrom<&ServerConfig<SslConfig>> for ServerAeadCodec {
     fn try_from(config: &ServerConfig<SslConfig>) -> Result<Self, Self::Error> {
         let uuid = config.user.iter().map(|u| &u.password).collect();
         let keys = id::from_passwords(uuid)?;
-        Ok(Self { keys, decode_state: DecodeState::Init, encode_state: EncodeState::Init })
+        Ok(Self { keys, decode_state: DecodeState::Init, encode_state: EncodeState::Init, connected: false })
     }
 }
